@@ -46,7 +46,7 @@ STM = [('tal', 'content', 'x'), ('tal', 'replace', 'x'), ('tal', 'condition', 'c
        ('tal', 'comment', 'blah'), ('metal', 'define-macro', 'M'), ('metal', 'define-slot', 'S'),
        ('tal', 'content', 'structure sx'), ('i18n', 'context', 'cx')]
 FOREIGN = [('class', 'k'), ('data-foo', '2'), ('data-x-y', '7'), ('f:a', '3'), ('title', 'T'), ('xml:lang', 'en'),
-           ('aria-label', 'l'), ('DATA-UP', '1')]
+           ('aria-label', 'l'), ('DATA-UP', '1'), ('b', '8')]
 
 
 class El:
@@ -76,7 +76,9 @@ def gen(rng, depth, counter, allow_undeclared):
         stmts = [(a, b, 'S%d' % counter[0]) if b == 'define-slot' else (a, b, c) for a, b, c in stmts]
     foreign = rng.sample(FOREIGN, rng.randint(0, 3))
     if allow_undeclared and rng.random() < .3:
-        foreign.append(('u:b', '9'))
+        foreign.append(('u:b', '9'))       # may stand next to a plain b="8": same local name, no namespace of its own
+    if foreign and rng.random() < .08:
+        foreign.append((foreign[0][0], 'again'))      # tag soup: the same attribute written twice
     counter[0] += 1
     eid = 'e%d' % counter[0]
     kids = []
